@@ -331,7 +331,7 @@ func PanicSig(op string, r any, stack []byte) string {
 	if m := frameRe.FindSubmatch(stack); m != nil {
 		fn = string(m[1])
 		fn = strings.TrimPrefix(fn, "github.com/CrowdStrike/csproto")
-		fn = strings.TrimPrefix(fn, "/")
+		fn = strings.TrimPrefix(strings.TrimPrefix(fn, "/"), ".")
 	}
 	return fmt.Sprintf("panic|%s|%s|%s", class, fn, op)
 }
